@@ -157,3 +157,14 @@ benign("c02-benign-reorder-disjuncts", "C02", OPT, "            if _value_is_obs
        "            if _any_node_output_observed(\n                graph, nodes, elem_nodes\n            ) or _value_is_observed(graph, nodes, t1_out):")
 benign("c02-benign-unary-op-added", "C02", OPT, 'ALLOWED_ELEMWISE: Set[str] = {\n    "Elu",', 'ALLOWED_ELEMWISE: Set[str] = {\n    "Softplus",\n    "Elu",')
 benign("c02-benign-direct-predicates", "C02", OPT, "            if _value_is_observed(graph, nodes, reducer_out_val):\n", "            if _value_is_graph_output(graph, reducer_out_val) or _nested_graph_references_value(nodes, reducer_out_val):\n")
+
+# ----------------------------------------------------------------------------- C14
+mutant("c14-revert-sorted-param-names", "C14", PS, "            for pname in sorted(call_param_names):", "            for pname in call_param_names:", expect="call_param_names")
+mutant("c14-set-loop-allocates-names", "C14", OPT, "            for t_out_node in output_transposes:\n                t_out = _node_output(t_out_node)\n                if t_out is None:\n                    continue",
+       "            for t_out_node in output_transposes:\n                t_out = _node_output(t_out_node)\n                if t_out is None:\n                    continue\n                graph.insert_before(t_out_node, ir.Node('', 'Identity', inputs=[t_out], outputs=[ir.Value(name='dbg')]))", expect="output_transposes")
+mutant("c14-id-in-value-name", "C14", "jax2onnx/converter/ir_optimizations.py", 'name=f"{reducer.name or \'reduce\'}_axes_optimized",', 'name=f"{reducer.name or \'reduce\'}_{id(reducer)}_axes_optimized",', expect="id(reducer)")
+mutant("c14-pick-first-of-set", "C14", OPT, "            if t2_node not in output_transposes:\n                continue\n", "            if t2_node not in output_transposes:\n                continue\n            anchor = next(iter(output_transposes))\n            _dbg(anchor)\n", expect="output_transposes")
+mutant("c14-hash-sort-key", "C14", OPT, "            graph.remove(list(output_transposes))\n\n            # Remove now-unused input Transpose(perm_fwd) nodes.", "            graph.remove(sorted(output_transposes, key=lambda nd: id(nd)))\n\n            # Remove now-unused input Transpose(perm_fwd) nodes.", expect="id(nd)")
+mutant("c14-module-level-name-counter", "C14", "jax2onnx/converter/ir_builder.py", "class IRBuilder:", "_GLOBAL_NAME_COUNTS: dict = {}\n\n\ndef _global_unique(base: str) -> str:\n    _GLOBAL_NAME_COUNTS[base] = _GLOBAL_NAME_COUNTS.get(base, 0) + 1\n    n = _GLOBAL_NAME_COUNTS[base]\n    return ir.Value(name=f\"{base}_{n}\").name\n\n\nclass IRBuilder:", expect="_GLOBAL_NAME_COUNTS")
+benign("c14-benign-sorted-twice", "C14", PS, "            for pname in sorted(call_param_names):", "            for pname in sorted(sorted(call_param_names)):")
+benign("c14-benign-set-membership-loop", "C14", OPT, "            if t2_node not in output_transposes:\n                continue\n", "            if t2_node not in output_transposes:\n                continue\n            n_inverse = 0\n            for _t in output_transposes:\n                n_inverse += 1\n")
